@@ -145,6 +145,13 @@ def _build(arr, via="flat"):
         return RaggedArray([dec_seq(r, dt).tolist() for r in rows])
     if via == "flat":
         return RaggedArray(data, lens, dtype=npdt)
+    if via == "pickled":                       # an equal array that went through pickle (of a still pending selection)
+        import pickle
+        big = RaggedArray(np.concatenate([[s], data, [s, s]]).astype(npdt), [1] + lens + [0, 2])
+        return pickle.loads(pickle.dumps(big[1:-2]))
+    if via == "copied":                        # copy.copy of a pending selection: shares buffer and view with it
+        big = RaggedArray([dec_seq(r, dt) for r in rows] + [np.array([s], dtype=npdt)], dtype=npdt)
+        return copy.copy(big[:-1])
     if via == "unsafe":                        # safe_mode=False: the library skips its index checks, so only cases with an answer are claimed
         return RaggedArray(data, lens, dtype=npdt, safe_mode=False)
     if via == "shape":
@@ -183,7 +190,7 @@ def _build(arr, via="flat"):
     raise ValueError(via)
 
 
-VIAS = ["rows", "flat", "shape", "rowview", "colview", "stepview", "revview", "listview", "ufunc", "assigned", "nprows", "pylists", "unsafe"]
+VIAS = ["rows", "flat", "shape", "rowview", "colview", "stepview", "revview", "listview", "ufunc", "assigned", "nprows", "pylists", "unsafe", "pickled", "copied"]
 
 
 def pre_reads(a, pre):
